@@ -220,6 +220,49 @@ def single_site_part(ck, seed):
     ck.extra["single_site_blocks"] = blocks
 
 
+def certain_attachment_part(ck, seed, thorough):
+    """A tree far beyond the enumerable sizes (a chain of 40 clones, all at CCF 1) whose data make every clone's current
+    attachment conditionally certain (any other attachment puts two full-size children under one clone or two
+    full-size clones at top level: posterior mass < e^-100): a prune-regraft draw from the conditional posterior must
+    return the start tree - every time."""
+    import numpy as np
+    from phyclone.data.base import DataPoint
+    from phyclone.tree import FSCRPDistribution, TreeJointDistribution
+    from phyclone.mcmc.gibbs_mh import PruneRegraphSampler, DataPointSampler
+
+    K = 40
+    G = 5
+    data = []
+    for i in range(K):
+        row = np.full((2, G), -120.0)
+        row[:, G - 1] = 0.0              # every clone sits at CCF 1: a clone has room for exactly one child of that size
+        data.append(DataPoint(i, np.ascontiguousarray(row)))
+    key = absstate.canon({"f": [list(range(i, K)) for i in range(K)], "o": []})
+    td = TreeJointDistribution(FSCRPDistribution(1.0))
+    rng = np.random.default_rng(1000 + seed)
+    start = absstate.build(key, data)
+    calls = 150 if thorough else 70
+    moved = 0
+    first = None
+    prg = PruneRegraphSampler(td, rng)
+    for c in range(calls):
+        out = prg.sample_tree(start.copy())
+        k2 = absstate.quick_key(out)
+        if k2 != key:
+            moved += 1
+            first = first or absstate.key_str(k2)[:200]
+    ck.evaluations += calls
+    ck.nontrivial("certain_attachment:prg")
+    if moved:
+        ck.violation("C04|certain_attachment|prg", "on a chain of %d clones whose attachments are conditionally certain (alternatives < e^-100) the prune-regraft move left the start tree in %d of %d calls, e.g. to %s" % (
+            K, moved, calls, first), {"clones": K, "calls": calls, "moved": moved})
+    dps = DataPointSampler(td, rng, outliers=False)
+    out = dps.sample_tree(start.copy())
+    if absstate.quick_key(out) != key:
+        ck.violation("C04|certain_attachment|dp", "on the same tree a data-point sweep moved a data point although every alternative has posterior mass < e^-100", {"clones": K})
+    ck.extra["certain_attachment_calls"] = calls
+
+
 def trace_moves_part(ck, seed, thorough):
     """The move RELATIONS of Moves.tla (MoveRel.tla) bound beyond the sizes the exact kernels reach: real chains on 6-8
     (clustered) data points with flat likelihoods and a large concentration value (many clones, trees change often);
@@ -269,6 +312,7 @@ def run(corrupt=None):
         c01.run_configs(ck, cfgs, table, which=which, prop="C04", corrupt=corrupt, sigfn=sigfn_for(which))
     mechanism_rows(ck, seed, table)
     single_site_part(ck, seed)
+    certain_attachment_part(ck, seed, thorough)
     trace_moves_part(ck, seed, thorough)
     # sweep composition on one tree object (data-point scan, prune-regraft, relabel, prune-regraft), real density
     cfgs = [dict(base, n=3, wiring="run", outl=False, dist="real", alpha=0.6)]
